@@ -191,6 +191,10 @@ def modelLine (st : DState) (w : List String) : DState × String :=
       let cl := Cluster.init sl l1
       ({ cl := cl, sp := C07.Spec.empty, mayEvict := sl.any (· > 0), sess := sl.map fun _ => [] }, s!"ok | {tailStr cl}")
     | _, _ => (st, "bad-op")
+  | ["drop"] =>
+    -- every connection is cut (server front-ends restarted over the same caches): `messenger::transmit` reconnects
+    -- and re-sends, so nothing changes for the callers — the model has no connection state at all
+    (st, s!"ok | {tailStr st.cl}")
   | ["reset"] =>
     let cl : Cluster :=
       { servers := st.cl.servers.map fun s => (C07.step s .clear).1
@@ -325,6 +329,7 @@ def judgeLine (st : DState) (w : List String) : DState × String :=
   | "cw" :: rest => (st, judgeSessCw rest res)
   | "cws" :: _ :: rest => (st, judgeSessCw rest res)
   | ["layout"] | ["hash", _, _] => (st, "1")
+  | ["drop"] => (st, if res == ["ok"] then "1" else "0 drop-answer")
   | ["reset"] => ({ st with sp := C07.Spec.empty, ev := fun _ => [] }, if res == ["ok"] then "1" else "0 reset-answer")
   | ["cfg", sl, l1] =>
     match parseLimits sl, parseL1s l1 with
